@@ -25,7 +25,7 @@ RULE = ("seeded random qiskit circuits (1-4 qubits, 1-10 gates over h,x,y,z,s,sd
         "flag); non-trivial = at least one multi-qubit gate")
 MANDATORY = ["three_qubit_then_two_qubit_on_two_of_its_qubits", "nonadjacent_cx_reversed", "two_heralded_cascaded",
              "post_selection_rules_returned", "refusal_recorded", "allow_ps_true", "allow_ps_false", "swap_gate",
-             "converter_object_reused", "two_qubit_gate_distance_ge4"]
+             "converter_object_reused", "two_qubit_gate_distance_ge4", "gate_then_swaps_carry_qubits_away"]
 DECIDING = ["mon.converter_postconditions"]
 BUDGET = {"quick": 35, "thorough": 540}
 ASSUMPTIONS = ["qiskit.quantum_info.Operator (little-endian) is the reference unitary", "conversions whose photonic "
@@ -219,6 +219,25 @@ def run(ctx):
                 q = int(rng.integers(n)); qc.h(q); log.append(["h", q])
             ctx.bucket("two_heralded_cascaded")
             allow = False
+        elif fam == 4:
+            # an entangling gate whose qubits are afterwards carried away by explicit swaps (possibly onto lines no
+            # other multi-qubit gate touches), optionally followed by more gates
+            n = int(rng.choice([3, 4, 4]))
+            qc = QuantumCircuit(n)
+            a, b = [int(x) for x in rng.choice(n, size=2, replace=False)]
+            g = str(rng.choice(["cx", "cz"]))
+            if rng.random() < 0.3:
+                qc.h(a); log.append(["h", a])
+            getattr(qc, g)(a, b); log.append([g, a, b])
+            others = [q for q in range(n) if q not in (a, b)]
+            rng.shuffle(others)
+            movers = [a, b] if (n == 4 and rng.random() < 0.7) else [int(rng.choice([a, b]))]
+            for mv, tgt in zip(movers, others):
+                qc.swap(mv, int(tgt)); log.append(["swap", mv, int(tgt)])
+            ctx.bucket("gate_then_swaps_carry_qubits_away")
+            for _ in range(int(rng.integers(0, 3))):
+                add_random_gate(qc, rng, n, log, allow3=False, max_multi=1, counter=counter)
+            allow = bool(rng.random() < 0.8)
         elif fam == 3:
             # a two-qubit gate between far-apart qubits (needs several swaps each side) on 5-6 qubits
             n = int(rng.choice([5, 5, 6]))
